@@ -113,6 +113,7 @@ var Mutants = []Mutant{
 	{ID: "svg-pending-list-reused", Props: []string{"C19"}, Rule: "R-SVG", File: "pkg/cli/svg/runtime.go", Find: "\trt.SVG.Elements = append(rt.SVG.Elements, el)\n\trt.elements = nil", Replace: "\trt.SVG.Elements = append(rt.SVG.Elements, el)\n\trt.elements = rt.elements[:0]", Expect: "Push#pending-list", Describe: "Push keeps the backing array that the group it just built holds"},
 	{ID: "str2bool-library-parser", Props: []string{"C13"}, Rule: "R-BUILTINSIG", File: "pkg/evaluator/builtin.go", Find: "\tb, err := parseBool(s.V)\n", Replace: "\tb, err := strconv.ParseBool(s.V)\n", Expect: "builtin:str2bool#documented-spellings", Describe: "str2bool accepts t, T, f, F without setting err"},
 	{ID: "builtin-runs-after-stop-in-argument", Props: []string{"C14"}, Rule: "R-YIELD", File: "pkg/evaluator/evaluator.go", Find: "\t\tif e.Stopped {\n\t\t\t// An argument such as `read` or `sleep` has handed control to\n\t\t\t// the platform, which asked to stop in the meantime.\n\t\t\treturn nil, ErrStopped\n\t\t}\n", Replace: "", Expect: "evalFunccall#builtin-call", Describe: "`print (read)` prints after Stop was pressed during read"},
+	{ID: "marked-beyond-choices-unseen", Props: []string{"C20"}, Rule: "R-CRYPTO", File: "learn/pkg/learn/question.go", Find: "\treturn m.verifyMarkedExist(correctByIndex, len(outputs))\n", Replace: "\treturn nil\n", Expect: "verifyChoiceMatch#marked-set-examined-whole", Describe: "`answer: a, z` on a three-choice question is accepted"},
 	// C08
 	{ID: "printf-composite-as-pointer", Props: []string{"C08"}, Rule: "R-ADDRPRINT", File: "pkg/evaluator/value.go", Find: "\t\treturn unwrapBasicvalue(v.V)\n\tdefault:\n\t\treturn v.String()\n\t}\n", Replace: "\t\treturn unwrapBasicvalue(v.V)\n\t}\n\treturn val\n", Expect: "sprintf#fmt-dynamic-args", Describe: "printf \"%d\" [1 2] prints a heap address"},
 	{ID: "mapstring-go-order", Props: []string{"C08", "C12"}, Rule: "R-MAPRANGE", File: "pkg/evaluator/value.go", Find: "func (m *mapVal) String() string {\n\tpairs := make([]string, 0, len(m.Pairs))\n\tfor _, key := range *m.Order {\n\t\tpairs = append(pairs, key+\":\"+m.Pairs[key].String())", Replace: "func (m *mapVal) String() string {\n\tpairs := make([]string, 0, len(m.Pairs))\n\tfor key, v := range m.Pairs {\n\t\tpairs = append(pairs, key+\":\"+v.String())", Expect: "(*mapVal).String#maprange", Describe: "maps print in Go map order"},
